@@ -429,10 +429,15 @@ func enabledOps(nobj int, vals []string) (mut []Op, ro []Op) {
 // valsFor: the value alphabet of a script family member. The map value is
 // left out for `a[0] = 7` (indexing a map with an int key is a language
 // question decided by C01, not by this property).
-func valsFor(si int, thorough bool) []string {
-	v := []string{"nil", "1", "s", "arr"}
-	if thorough && si != 4 {
-		v = append(v, "map")
+func valsFor(si int, vals []string) []string {
+	if si != 4 {
+		return vals
+	}
+	var v []string
+	for _, x := range vals {
+		if x != "map" {
+			v = append(v, x)
+		}
 	}
 	return v
 }
@@ -496,7 +501,7 @@ const batchSize = 2048
 // frontier state (in batches, to bound memory) and merged sequentially in
 // frontier order, so the representative path of a state is always the first
 // one in breadth-first, alphabet order.
-func explore(r *report.Run, maxDepth, capObjs int, thorough bool, deadlineSec float64) histStats {
+func explore(r *report.Run, maxDepth, capObjs int, alphabet []string, deadlineSec float64) histStats {
 	var st histStats
 	visited := map[[16]byte]struct{}{}
 	var frontier []node
@@ -543,7 +548,7 @@ func explore(r *report.Run, maxDepth, capObjs int, thorough bool, deadlineSec fl
 				nd := batch[i]
 				si := int(nd.si)
 				path := nd.ops()
-				vals := valsFor(si, thorough)
+				vals := valsFor(si, alphabet)
 				mm := newModel(si, capObjs)
 				for _, op := range path {
 					mm.do(op)
